@@ -109,10 +109,16 @@ func genField(r *rand.Rand, f reflect.Value, zeroOK bool) any {
 	switch f.Type() {
 	case rtU8:
 		v := r.Intn(256)
+		if r.Intn(6) == 0 {
+			v = []int{0, 1, 127, 128, 254, 255}[r.Intn(6)]
+		}
 		f.SetUint(uint64(v))
 		return v
 	case rtU16:
 		v := r.Intn(65536)
+		if r.Intn(5) == 0 {
+			v = []int{0, 1, 255, 256, 0x7fff, 0x8000, 0xff00, 65535}[r.Intn(8)]
+		}
 		f.SetUint(uint64(v))
 		return v
 	case rtU32, rtSerial:
@@ -125,6 +131,9 @@ func genField(r *rand.Rand, f reflect.Value, zeroOK bool) any {
 		return u32(v)
 	case rtVersion:
 		v := r.Intn(65536)
+		if r.Intn(5) == 0 {
+			v = []int{0, 1, 255, 256, 0x0662, 0x9999, 65535}[r.Intn(7)]
+		}
 		f.SetUint(uint64(v))
 		return v
 	case rtBool:
@@ -133,6 +142,9 @@ func genField(r *rand.Rand, f reflect.Value, zeroOK bool) any {
 		return v
 	case rtIP:
 		b := []byte{byte(r.Intn(256)), byte(r.Intn(256)), byte(r.Intn(256)), byte(r.Intn(256))}
+		if r.Intn(5) == 0 {
+			b = [][]byte{{0, 0, 0, 0}, {255, 255, 255, 255}, {0, 0, 0, 1}, {255, 0, 0, 0}, {127, 0, 0, 1}}[r.Intn(5)]
+		}
 		if r.Intn(2) == 0 {
 			f.Set(reflect.ValueOf(net.IPv4(b[0], b[1], b[2], b[3])))
 		} else {
@@ -142,11 +154,27 @@ func genField(r *rand.Rand, f reflect.Value, zeroOK bool) any {
 	case rtAddrPort:
 		b := [4]byte{byte(r.Intn(256)), byte(r.Intn(256)), byte(r.Intn(256)), byte(r.Intn(256))}
 		port := r.Intn(65536)
+		// the boundary values: no address, no port, neither ("no listener"), both at their maximum
+		switch r.Intn(10) {
+		case 0:
+			b, port = [4]byte{}, 0
+		case 1:
+			port = 0
+		case 2:
+			b = [4]byte{}
+		case 3:
+			b, port = [4]byte{255, 255, 255, 255}, 65535
+		case 4:
+			port = []int{1, 255, 256, 60000, 65535}[r.Intn(5)]
+		}
 		f.Set(reflect.ValueOf(netip.AddrPortFrom(netip.AddrFrom4(b), uint16(port))))
 		return M{"ip": ints(b[:]), "port": port}
 	case rtMAC:
 		b := make([]byte, 6)
 		r.Read(b)
+		if r.Intn(6) == 0 {
+			b = [][]byte{{0, 0, 0, 0, 0, 0}, {255, 255, 255, 255, 255, 255}}[r.Intn(2)]
+		}
 		f.Set(reflect.ValueOf(types.MacAddress(b)))
 		return ints(b)
 	case rtHW:
@@ -227,6 +255,10 @@ func genField(r *rand.Rand, f reflect.Value, zeroOK bool) any {
 		return M{"t": "date", "y": y, "m": m, "d": d}
 	case rtSysTime:
 		h, mi, s := r.Intn(24), r.Intn(60), r.Intn(60)
+		if r.Intn(5) == 0 {
+			x := [][3]int{{0, 0, 0}, {23, 59, 59}, {0, 0, 1}, {12, 0, 0}, {0, 59, 0}}[r.Intn(5)]
+			h, mi, s = x[0], x[1], x[2]
+		}
 		f.Set(reflect.ValueOf(types.SystemTime(time.Date(0, 1, 1, h, mi, s, 0, time.UTC))))
 		return M{"h": h, "mi": mi, "s": s}
 	case rtHHmm:
